@@ -21,6 +21,8 @@
     ReshapeFull.lean  reshapeS_sem_full (spec value fixed at EVERY index + equal tables), reshapeS_sem (exact equation on
                   canonical rows), reshape_canon, reshape_self_canon, ofTensor_canon
     FinStack.lean finStack_sem, finStack_get (eager_finitary_stack = np.stack of the parts' values, every axis; Model/C01Fin.lean)
+    Slice.lean    slicePositions_full_rev, _length, slicePositions_full, slicePositions_full_rev_ne_full (signed Python slices,
+                  Model/C01Slice.lean: same shape never implies same contents), same_shape_not_identity_witness
     Total.lean    peval_total_core, core_complete_and_sound (typing commutes with evaluation)
   This file: non-vacuity examples.
 -/
@@ -31,6 +33,7 @@ import FunsorVerif.Props.C01.Aggregates
 import FunsorVerif.Props.C01.NamedAgg
 import FunsorVerif.Props.C01.ReshapeFull
 import FunsorVerif.Props.C01.FinStack
+import FunsorVerif.Props.C01.Slice
 namespace FV.Props.C01
 open FV FV.C01
 
